@@ -8,20 +8,30 @@ EvJson(i) == [id |-> i, type |-> E[i].type, sender |-> E[i].sender, skey |-> E[i
               plu |-> E[i].plu, jr |-> E[i].jr, prev |-> E[i].prev, auth |-> E[i].auth, depth |-> E[i].depth,
               ts |-> E[i].ts, idr |-> E[i].idr, sha |-> E[i].sha]
 
-Query(a, b) ==
-    LET Sets == <<after[a], after[b]>> IN
+\* free events that some other event cites as an auth event: candidates for the caller's rejected-event oracle
+RejectCandidates == {x \in DOMAIN E : x > Base /\ \E y \in DOMAIN E : x \in E[y].auth}
+
+WithRejected(rej) == [i \in DOMAIN E |-> [E[i] EXCEPT !.rejected = (i \in rej)]]
+
+Query(a, b, rej) ==
+    LET Sets == <<after[a], after[b]>>
+        ER == WithRejected(rej) IN
     IF StateRes(Ver) = "v1"
-    THEN [ver |-> Ver, events |-> [i \in DOMAIN E |-> EvJson(i)], sets |-> Sets, tips |-> <<a, b>>,
-          result |-> ResultV1(E, Ver, Sets), unconflicted |-> UnconflictedV1(E, Sets), power |-> <<>>, others |-> <<>>,
+    THEN [ver |-> Ver, events |-> [i \in DOMAIN E |-> EvJson(i)], sets |-> Sets, tips |-> <<a, b>>, rejected |-> rej,
+          result |-> ResultV1(ER, Ver, Sets), unconflicted |-> UnconflictedV1(ER, Sets), power |-> <<>>, others |-> <<>>,
           authdiff |-> {}, subgraph |-> {}]
-    ELSE LET st == StagesV2(E, Ver, Sets) IN
-         [ver |-> Ver, events |-> [i \in DOMAIN E |-> EvJson(i)], sets |-> Sets, tips |-> <<a, b>>,
+    ELSE LET st == StagesV2(ER, Ver, Sets) IN
+         [ver |-> Ver, events |-> [i \in DOMAIN E |-> EvJson(i)], sets |-> Sets, tips |-> <<a, b>>, rejected |-> rej,
           result |-> st.result, unconflicted |-> st.unconflicted, power |-> st.power, others |-> st.others,
           authdiff |-> st.authdiff, subgraph |-> st.subgraph]
 
-\* one evaluation of the stages per fork pair: check the definition's properties and emit the query
-QueryOK(a, b) ==
-    LET q == Query(a, b) IN PairOK(a, b, q.result) /\ PrintT(ToJson(q))
+\* one evaluation of the stages per fork pair (and per rejected-event oracle): check the definition's
+\* properties and emit the query
+QueryOK(a, b, rej) ==
+    LET q == Query(a, b, rej) IN PairOK(a, b, q.result) /\ PrintT(ToJson(q))
 
-Emit == \A p \in ForkPairs : QueryOK(p[1], p[2])
+Emit == /\ HistoryNoEsc
+        /\ \A p \in ForkPairs :
+              /\ QueryOK(p[1], p[2], {})
+              /\ (StateRes(Ver) # "v1" => \A x \in RejectCandidates : QueryOK(p[1], p[2], {x}))
 =============================================================================
